@@ -13,6 +13,52 @@ fn main() {
         eprintln!("usage: replay <module::harness> [hex,hex,...]");
         std::process::exit(2);
     }
+    // development aid (not part of any check): replay --random <n> <seed> <harness> runs the body on
+    // n pseudo-random assignments to shake out oracle mistakes natively before the solver is asked
+    if args[1] == "--random" {
+        let n: u64 = args[2].parse().unwrap();
+        let mut seed: u64 = args[3].parse().unwrap();
+        let name = &args[4];
+        let mut f = None;
+        for (m, table) in l4v::tables() {
+            for (hn, hf) in table.iter() {
+                if format!("{}::{}", m, hn) == *name {
+                    f = Some(*hf);
+                }
+            }
+        }
+        let f = f.expect("unknown harness");
+        std::panic::set_hook(Box::new(|_| {}));
+        l4v::sym::native::LENIENT.with(|l| *l.borrow_mut() = true);
+        let (mut ran, mut skipped) = (0u64, 0u64);
+        for _ in 0..n {
+            let mut vals = Vec::new();
+            for _ in 0..256 {
+                seed ^= seed << 13;
+                seed ^= seed >> 7;
+                seed ^= seed << 17;
+                // small values are the interesting ones for `below(n)` draws
+                vals.push(seed.to_le_bytes().to_vec());
+            }
+            let keep = vals.clone();
+            l4v::sym::native::load(vals);
+            match std::panic::catch_unwind(f) {
+                Ok(()) => ran += 1,
+                Err(e) => {
+                    if e.downcast_ref::<l4v::sym::native::AssumeViolated>().is_some() {
+                        skipped += 1;
+                    } else {
+                        let used = 256 - l4v::sym::native::leftover();
+                        let hex: Vec<String> = keep[..used].iter().map(|v| v.iter().map(|b| format!("{:02x}", b)).collect::<String>()).collect();
+                        println!("RANDOM: REPRODUCED with {}", hex.join(","));
+                        std::process::exit(1);
+                    }
+                }
+            }
+        }
+        println!("RANDOM: {} bodies ran to the end, {} skipped by assumptions", ran, skipped);
+        std::process::exit(0);
+    }
     let name = &args[1];
     let vals: Vec<Vec<u8>> = if args.len() > 2 && !args[2].is_empty() {
         args[2]
@@ -42,6 +88,9 @@ fn main() {
         }
     };
     l4v::sym::native::load(vals);
+    if std::env::var("L4V_LENIENT").is_ok() {
+        l4v::sym::native::LENIENT.with(|l| *l.borrow_mut() = true);
+    }
     let r = panic::catch_unwind(f);
     match r {
         Ok(()) => {
